@@ -72,6 +72,9 @@ __CPROVER_assigns(g_vh_calc_calls, g_vh_calc_pdu, g_vh_calc_alg, g_vh_calc_key, 
 #define C06_V2_CONTRACT(FN, PDU, OPT, REQTAG, RESPTAG, REQTMPL, RESPTMPL, REQTAG1, RESPTAG1, REQTMPL1, RESPTMPL1) \
 int FN(const PDU *t, KSI_HashAlgorithm algo_id, const char *key, KSI_DataHash **hmac) \
 __CPROVER_requires(g_ser_calls == 0 && g_hl_calls == 0 && g_mac_calls == 0 && g_mac_out == NULL && g_vh_free_calls == 0) \
+/* (argument record: preset by the enforcing harness, set by a replaced call in the enclose jobs) */ \
+__CPROVER_ensures(g_c06.call_t == (const void *)t && g_c06.call_alg == (int)algo_id && g_c06.call_key == key && \
+		g_c06.call_placeholder == (t != NULL ? t->hmac : NULL)) \
 __CPROVER_ensures(IMPLIES(t == NULL || t->ctx == NULL, __CPROVER_return_value == KSI_INVALID_ARGUMENT && g_mac_calls == 0)) \
 __CPROVER_ensures(IMPLIES(t != NULL && t->ctx != NULL && t->ctx->options[OPT] != KSI_PDU_VERSION_1 && t->ctx->options[OPT] != KSI_PDU_VERSION_2, \
 		__CPROVER_return_value == KSI_INVALID_FORMAT && g_mac_calls == 0)) \
@@ -179,5 +182,58 @@ C06_VERIFY_CONTRACT(KSI_AggregationPdu_verify, KSI_AggregationPdu, KSI_OPT_AGGR_
 #endif
 #ifdef C06_EXT_VERIFY
 C06_VERIFY_CONTRACT(KSI_ExtendPdu_verify, KSI_ExtendPdu, KSI_OPT_EXT_HMAC_ALGORITHM)
+#endif
+
+/* KSI_AggregationReq_encloseWithHeader / KSI_ExtendReq_encloseWithHeader (KSI_*Pdu_new/_setHeader/_updateHmac/_free real and
+ * inlined, KSI_*Pdu_calculateHmac replaced by its contract above):
+ *   no MAC algorithm configured -> INVALID_STATE;  untrusted MAC algorithm -> UNTRUSTED_HASH_ALGORITHM; in both cases
+ *        no placeholder is made and no MAC is computed ("refused before anything is MAC-ed");
+ *   OK => algorithm configured and trusted ∧ a zero placeholder of THAT algorithm was put into the PDU ∧ the MAC was
+ *        computed ONCE over that PDU (header = the header given) while it held the placeholder, under (that algorithm,
+ *        the key given) ∧ the PDU handed out carries the computed MAC ∧ the placeholder was released;
+ *   error => *pdu untouched, header and request still the caller's (the PDU object is emptied before it is released). */
+/* assumed (replaced): the release functions of types.c, recorded - what the PDU still held when it was released */
+#define C06_FREE_CONTRACTS(REQ, PDU) \
+void PDU##_free(PDU *t) \
+__CPROVER_ensures(g_en.pdu_free_calls == __CPROVER_old(g_en.pdu_free_calls) + (t != NULL ? 1 : 0)) \
+__CPROVER_ensures(IMPLIES(t != NULL, g_en.pdu_free_hdr == (const void *)t->header && g_en.pdu_free_req == (const void *)t->request && g_en.pdu_free_mac == t->hmac)) \
+__CPROVER_assigns(g_en.pdu_free_calls, g_en.pdu_free_hdr, g_en.pdu_free_req, g_en.pdu_free_mac); \
+void REQ##_free(REQ *t) \
+__CPROVER_ensures(g_en.req_free_calls == __CPROVER_old(g_en.req_free_calls) + (t != NULL ? 1 : 0)) \
+__CPROVER_ensures(IMPLIES(t != NULL, g_en.req_freed == (const void *)t)) \
+__CPROVER_assigns(g_en.req_free_calls, g_en.req_freed);
+
+#define C06_ENCLOSE_CONTRACT(FN, REQ, PDU, ALGOPT) \
+int FN(REQ *req, KSI_Header *hdr, const char *key, PDU **pdu) \
+__CPROVER_requires(g_en.trusted_calls == 0 && g_en.zero_calls == 0 && g_en.zero_free == 0 && g_en.mac_free == 0 && g_en.other_free == 0 && \
+		g_c06.call_t == NULL && g_ser_calls == 0 && g_hl_calls == 0 && g_mac_calls == 0 && g_mac_out == NULL && g_vh_free_calls == 0 && g_en.zero == NULL) \
+__CPROVER_ensures(IMPLIES(req == NULL || hdr == NULL || key == NULL || pdu == NULL, __CPROVER_return_value == KSI_INVALID_ARGUMENT && g_c06.call_t == NULL)) \
+__CPROVER_ensures(IMPLIES(req != NULL && hdr != NULL && key != NULL && pdu != NULL && \
+		(KSI_HashAlgorithm)__CPROVER_old(req->ctx->options[ALGOPT]) == KSI_HASHALG_INVALID_VALUE, \
+		__CPROVER_return_value != KSI_OK && g_en.zero_calls == 0 && g_c06.call_t == NULL)) \
+__CPROVER_ensures(IMPLIES(g_en.trusted_calls > 0 && !g_en.trusted, \
+		__CPROVER_return_value == KSI_UNTRUSTED_HASH_ALGORITHM && g_en.zero_calls == 0 && g_c06.call_t == NULL)) \
+__CPROVER_ensures(IMPLIES(__CPROVER_return_value == KSI_OK, \
+		req != NULL && hdr != NULL && key != NULL && pdu != NULL && \
+		g_en.trusted_calls == 1 && g_en.trusted && g_en.trusted_alg != KSI_HASHALG_INVALID_VALUE && \
+		g_en.zero_calls == 1 && g_en.zero_res == KSI_OK && g_en.zero_alg == g_en.trusted_alg && \
+		g_c06.call_t == (const void *)*pdu && g_c06.call_alg == g_en.trusted_alg && g_c06.call_key == key && \
+		g_c06.call_placeholder == g_en.zero && \
+		*pdu != NULL && (*pdu)->header == hdr && (*pdu)->hmac == g_mac_out && g_mac_out != NULL && \
+		g_en.zero_free == 1 && g_en.mac_free == 0 && g_en.other_free == 0 && g_en.pdu_free_calls == 0 && \
+		/* the interface takes ownership of the request: it is in the PDU, or released */ \
+		((*pdu)->request == req ? g_en.req_free_calls == 0 : (g_en.req_free_calls == 1 && g_en.req_freed == (const void *)req && (*pdu)->request == NULL)))) \
+__CPROVER_ensures(IMPLIES(__CPROVER_return_value != KSI_OK && pdu != NULL, *pdu == __CPROVER_old(*pdu))) \
+__CPROVER_ensures(IMPLIES(__CPROVER_return_value != KSI_OK, g_en.other_free == 0 && g_en.req_free_calls == 0 && g_en.pdu_free_calls <= 1 && \
+		IMPLIES(g_en.pdu_free_calls == 1, g_en.pdu_free_hdr == NULL && g_en.pdu_free_req == NULL))) \
+__CPROVER_assigns(*pdu, g_en, g_c06, g_vh_free_calls, g_vh_free_foreign; \
+		req != NULL && req->config != NULL: req->config->ref);      /* (a configuration request is shared with the PDU: one more reference) */
+#ifdef C06_AGGR_ENCLOSE
+C06_FREE_CONTRACTS(KSI_AggregationReq, KSI_AggregationPdu)
+C06_ENCLOSE_CONTRACT(KSI_AggregationReq_encloseWithHeader, KSI_AggregationReq, KSI_AggregationPdu, KSI_OPT_AGGR_HMAC_ALGORITHM)
+#endif
+#ifdef C06_EXT_ENCLOSE
+C06_FREE_CONTRACTS(KSI_ExtendReq, KSI_ExtendPdu)
+C06_ENCLOSE_CONTRACT(KSI_ExtendReq_encloseWithHeader, KSI_ExtendReq, KSI_ExtendPdu, KSI_OPT_EXT_HMAC_ALGORITHM)
 #endif
 #pragma CPROVER check pop
